@@ -322,6 +322,69 @@ pub fn c07_cases(rng: &mut Rng, tier: &str, out: &mut Out) {
     }
 }
 
+/// One key ring, several archives: a reader configuration that has loaded the header of one encrypted
+/// archive and then loads the header of another one (probing a set of archives with the same candidate
+/// keys) must end up with the key and nonce of the archive it loaded LAST, and reading that archive with
+/// a configuration that went through this must succeed.
+pub fn c07_keyring_cases(rng: &mut Rng, tier: &str, out: &mut Out) {
+    let n = if tier == "thorough" { 40 } else { 8 };
+    for k in 0..n {
+        let sk_a = fixed_secret(7_000 + k as u64);
+        let sk_b = fixed_secret(8_000 + k as u64);
+        let both = vec![PublicKey::from(&sk_a), PublicKey::from(&sk_b)];
+        let f1 = vec![(b"one".to_vec(), rng.bytes(90))];
+        let f2 = vec![(b"two".to_vec(), rng.bytes(200))];
+        let layers = if k % 2 == 0 { L_ENC } else { L_ENC | L_COMP };
+        let mut msg: Option<String> = None;
+        match (build_fixed(layers, &both[..1 + k % 2], &f1), build_fixed(layers, &both, &f2)) {
+            (Ok(a1), Ok(a2)) => {
+                let r = catch(|| -> Result<(), String> {
+                    let mut cfg = ArchiveReaderConfig::new();
+                    cfg.add_private_keys(&[sk_a.clone()]);
+                    let h1 = ArchiveHeader::from(&mut Cursor::new(a1.bytes.as_slice())).map_err(|e| format!("{e:?}"))?;
+                    cfg.load_persistent(h1.config).map_err(|e| format!("first header: {e:?}"))?;
+                    let p1 = cfg.get_encrypt_parameters().ok_or("no parameters after the first header")?;
+                    if p1.0.to_vec() != a1.key || p1.1.to_vec() != a1.nonce_cfg {
+                        return Err("after loading the first header the configuration does not hold that archive's key and nonce".into());
+                    }
+                    let h2 = ArchiveHeader::from(&mut Cursor::new(a2.bytes.as_slice())).map_err(|e| format!("{e:?}"))?;
+                    cfg.load_persistent(h2.config).map_err(|e| format!("second header: {e:?}"))?;
+                    let p2 = cfg.get_encrypt_parameters().ok_or("no parameters after the second header")?;
+                    if p2.0.to_vec() != a2.key || p2.1.to_vec() != a2.nonce_cfg {
+                        return Err("a configuration that loaded two headers in turn holds the key / nonce of the FIRST archive, not of the one loaded last".into());
+                    }
+                    // and the second archive reads with it
+                    let mut rd = ArchiveReader::from_config(Cursor::new(a2.bytes.as_slice()), cfg).map_err(|e| format!("second archive with the re-used configuration: {e:?}"))?;
+                    let mut f = rd.get_file("two".to_string()).map_err(|e| format!("{e:?}"))?.ok_or("file missing")?;
+                    let mut d = Vec::new();
+                    std::io::Read::read_to_end(&mut f.data, &mut d).map_err(|e| format!("{e:?}"))?;
+                    if d != f2[0].1 {
+                        return Err("bytes differ".into());
+                    }
+                    Ok(())
+                });
+                match r {
+                    Ok(Ok(())) => {}
+                    Ok(Err(e)) => msg = Some(e),
+                    Err(p) => msg = Some(format!("panicked: {p}")),
+                }
+            }
+            (Err(e), _) | (_, Err(e)) => msg = Some(format!("building an archive failed: {e}")),
+        }
+        out.case(&Case {
+            id: format!("c07-keyring-{k}"),
+            model_fn: "",
+            args: vec![],
+            imp: json!([]),
+            oracle_ok: msg.is_none(),
+            oracle_msg: msg.unwrap_or_default(),
+            class: format!("one-key-ring-two-archives layers={layers}"),
+            nontrivial: true,
+            meta: json!({"layers": layers}),
+        });
+    }
+}
+
 // ====================================================================================== c07-model
 // Work package c07rng: model-compared rows (coq/theories/RunC07.v), scaled build.
 
